@@ -218,7 +218,7 @@ func runCheck(prop, tier string) int {
 	}
 	known := loadKnown(filepath.Join(verifDir, "known_findings.json"))
 
-	budget, fpBudget := 20, 90
+	budget, fpBudget := 60, 90
 	if tier == "thorough" {
 		budget, fpBudget = 120, 300
 	}
